@@ -3,7 +3,6 @@
 package main
 
 import (
-	"testing/synctest"
 	"crypto/sha256"
 	"encoding/hex"
 	"fmt"
@@ -16,6 +15,7 @@ import (
 	"strings"
 	"sync"
 	"testing"
+	"testing/synctest"
 	"time"
 
 	"github.com/oauth2-proxy/oauth2-proxy/v7/pkg/apis/options"
